@@ -29,14 +29,15 @@ var (
 )
 
 type drv struct {
-	w        *vt.Writer
-	c        *coll.C
-	sentinel *entities.InfoElement
-	tids     map[*entities.InfoElement]int
-	nextTid  int
-	evals    int
-	distinct map[uint64]bool
-	last     *entities.InfoElement
+	w         *vt.Writer
+	c         *coll.C
+	sentinel  *entities.InfoElement
+	tids      map[*entities.InfoElement]int
+	nextTid   int
+	evals     int
+	distinct  map[uint64]bool
+	last      *entities.InfoElement
+	resetPrev []int // non-nil: the element object first carries this value and is reset before it is encoded
 }
 
 func (d *drv) template(ie *entities.InfoElement) (int, bool) {
@@ -76,9 +77,17 @@ func (d *drv) one(ie *entities.InfoElement, abs []int) {
 	if !ok {
 		return
 	}
-	elem, err := gen.Elem(ie, abs)
+	first := abs
+	if d.resetPrev != nil {
+		first = d.resetPrev // history on one element object: carries this value, is reset, is then encoded
+	}
+	elem, err := gen.Elem(ie, first)
 	if err != nil {
 		panic(err)
+	}
+	if d.resetPrev != nil {
+		elem.ResetValue()
+		ev["afterReset"] = true
 	}
 	sent := entities.NewUnsigned8InfoElement(d.sentinel, 0xA5)
 	ev["reported"] = elem.GetLength()
@@ -120,6 +129,22 @@ func (d *drv) one(ie *entities.InfoElement, abs []int) {
 		d.finish()
 		os.Exit(0)
 	}
+}
+
+// oneReset: an element object that carried prev and was reset encodes as the empty / zero value of its type
+// (numbers, booleans, strings and variable-length octet arrays; addresses and fixed arrays have no encodable reset value)
+func (d *drv) oneReset(ie *entities.InfoElement, prev []int) {
+	switch ie.DataType {
+	case entities.Ipv4Address, entities.Ipv6Address, entities.MacAddress:
+		return
+	case entities.OctetArray:
+		if ie.Len != entities.VariableLength {
+			return
+		}
+	}
+	d.resetPrev = prev
+	defer func() { d.resetPrev = nil }()
+	d.one(ie, gen.Zero(ie))
 }
 
 func (d *drv) finish() {
@@ -195,6 +220,12 @@ func main() {
 	for _, ie := range fixed {
 		for i := 0; i < nrand; i++ {
 			d.one(ie, gen.Abs(r, ie, 0))
+		}
+	}
+	// reset histories: one element of every type, several previous values each
+	for _, ie := range custom[:18] {
+		for i := 0; i < 6; i++ {
+			d.oneReset(ie, gen.Abs(r, ie, 300))
 		}
 	}
 	// float bit patterns: every listed pattern
